@@ -1,14 +1,16 @@
-(** Model of pkg/prune/prune.go (findCommitsToRemove, pruneTables, Prune) with the part
+(** Model of pkg/prune/prune.go (findCommitsToRemove, pruneTables, childrenFirst, Prune) with the part
     of pkg/ref/commits_queue.go it uses (Insert, Pop, InsertParents, PopInsertParents).
     Definitions only.  State and delete operations: PruneRepo.v.
 
-    [prune_gen checked s] = (deletes issued, in the order the Go code issues them; status).
+    [prune_gen checked ordered s] = (deletes issued, in the order the Go code issues them; status).
     status: Done (nil error) | Err (an error is returned: the ref walk met a commit that is
     not stored, or a surviving commit / kept table cannot be read) | Panic (index out of
     range) | Fuel (model artefact, proved impossible).
     [checked = true]  is the code as it is now: every sort.Search slot is used only when
                       [idx < len(keys) && keys[idx] == key];
     [checked = false] is the code before fix 98a13da: the slot is indexed blindly.
+    [ordered = true]  is the code as it is now: unreachable commits are deleted in childrenFirst order;
+    [ordered = false] is the code before fix b7554dd: they are deleted in key order.
 
     Every slot lookup is literally: sorted key list + GoSort.search + (optional) equality.
 
@@ -25,12 +27,13 @@
                prune: (status trace keysets),  status 0 ok | 1 error | 2 panic | 3 fuel
                  trace   = ((kind ...) (T ids) (TI ids) (P ids) (B ids) (BI ids) (C ids))   mode 0, else ()
                            kind order exact (0 table 1 tblidx 2 prof 3 block 4 blkidx 5 commit),
-                           ids of each kind ascending
+                           ids of each kind sorted ascending (the order inside a kind is not compared:
+                           hash order resp. children-first order of the real sums)
                  keysets = (commits tables tblidx prof blocks blkidx) ascending, duplicate-free, after the op *)
 From Coq Require Import String.
 From W.lib Require Import Tree GoSort.
 From W.model Require Import PruneRepo.
-From Coq Require Import Arith List.
+From Coq Require Import Arith List ZArith.
 Import ListNotations.
 Local Open Scope N_scope.
 
@@ -76,6 +79,51 @@ Fixpoint select (b : bool) (keys : list N) (found : list bool) : list N :=
   | k :: keys', f :: found' => if Bool.eqb f b then k :: select b keys' found' else select b keys' found'
   | _, _ => []
   end.
+
+(* ---- childrenFirst (Kahn): each commit before its to-remove parents ---- *)
+
+(* pendingChildren: map[string]int, absent = 0 *)
+Definition getz (m : list (N * Z)) (k : N) : Z := match get m k with Some v => v | None => 0%Z end.
+Definition setz (k : N) (v : Z) (m : list (N * Z)) : list (N * Z) := (k, v) :: rem k m.
+
+(* parents[sum]: the parents of [sum] that are in the to-remove set, in order, with repetitions;
+   GetCommit error => no entry ("continue").  The Go code caches this in a map while counting;
+   the store's commits do not change in between, so it is recomputed here. *)
+Definition cf_parents (cm : list (N * commit)) (cs : list N) (c : N) : list N :=
+  match get cm c with
+  | None => []
+  | Some co => filter (fun p => mem p cs) (c_parents co)
+  end.
+
+(* first loop: pendingChildren[p]++ for every to-remove parent occurrence *)
+Definition cf_count (cm : list (N * commit)) (cs : list N) : list (N * Z) :=
+  fold_left (fun m c => fold_left (fun m p => setz p (getz m p + 1)%Z m) (cf_parents cm cs c) m) cs [].
+
+(* for _, p := range parents[sum] { pendingChildren[p]--; if pendingChildren[p] == 0 { queue = append(queue, p) } } *)
+Fixpoint cf_dec (ps : list N) (pend : list (N * Z)) (queue : list N) : list (N * Z) * list N :=
+  match ps with
+  | [] => (pend, queue)
+  | p :: ps' =>
+      let v := (getz pend p - 1)%Z in
+      cf_dec ps' (setz p v pend) (if (v =? 0)%Z then queue ++ [p] else queue)
+  end.
+
+Fixpoint cf_loop (fuel : nat) (cm : list (N * commit)) (cs : list N)
+         (pend : list (N * Z)) (queue result : list N) : option (list N) :=
+  match fuel with
+  | O => None
+  | S fuel' =>
+      match queue with
+      | [] => Some result
+      | sum :: queue' =>
+          let '(pend', queue'') := cf_dec (cf_parents cm cs sum) pend queue' in
+          cf_loop fuel' cm cs pend' queue'' (result ++ [sum])
+      end
+  end.
+
+Definition children_first (cm : list (N * commit)) (cs : list N) : option (list N) :=
+  let pend := cf_count cm cs in
+  cf_loop (S (length cs)) cm cs pend (filter (fun c => (getz pend c =? 0)%Z) cs) [].
 
 (* ---- CommitsQueue ---- *)
 
@@ -189,7 +237,7 @@ Section Walk.
     end.
 
   (* ---- Prune ---- *)
-  Definition prune_gen (checked : bool) (s : state) : list del * status :=
+  Definition prune_gen (checked ordered : bool) (s : state) : list del * status :=
     match find_commits checked s with
     | Fail e => ([], e)
     | Ok (to_remove, surviving) =>
@@ -206,11 +254,15 @@ Section Walk.
                                     (repeat false (length bkeys)) (repeat false (length bikeys)) in
                 match tl_status r with
                 | Done =>
-                    (tl_dels r
-                       ++ map (Del KBlock) (select false bkeys (tl_kb r))
-                       ++ map (Del KBlkIdx) (select false bikeys (tl_kbi r))
-                       ++ map (Del KCommit) to_remove,
-                     Done)
+                    let pre := tl_dels r
+                                 ++ map (Del KBlock) (select false bkeys (tl_kb r))
+                                 ++ map (Del KBlkIdx) (select false bikeys (tl_kbi r)) in
+                    (* childrenFirst reads the commits of the store as it is after the sweeps *)
+                    match (if ordered then children_first (commits (apply_dels pre s)) to_remove
+                           else Some to_remove) with
+                    | None => (pre, Fuel)
+                    | Some order => (pre ++ map (Del KCommit) order, Done)
+                    end
                 | e => (tl_dels r, e)
                 end
             end
@@ -218,23 +270,33 @@ Section Walk.
     end.
 End Walk.
 
-(** the queue discipline used when the model is run: append (any other gives the same result,
-    Prune_proofs.prune_pos_irrelevant) *)
+(** the code as it is now, for a given queue discipline [pos] (theorems: for every [pos]) *)
+Definition prune_with (pos : list (N * commit) -> N -> commit -> nat) (s : state) : list del * status :=
+  prune_gen pos true true s.
+(** state after a crash (or a failing store.Delete) once [n] deletes have been done *)
+Definition crash_with pos (n : nat) (s : state) : state := apply_dels (firstn n (fst (prune_with pos s))) s.
+(** state after an uninterrupted prune *)
+Definition pruned_with pos (s : state) : state := apply_dels (fst (prune_with pos s)) s.
+
+(** the queue discipline used when the model is run: append *)
 Definition pos_append (items : list (N * commit)) (_ : N) (_ : commit) : nat := length items.
 
-Definition prune (s : state) : list del * status := prune_gen pos_append true s.
-Definition prune_unchecked (s : state) : list del * status := prune_gen pos_append false s.
-
-(** state after a crash (or a failing store.Delete) once [n] deletes have been done *)
-Definition crash (n : nat) (s : state) : state := apply_dels (firstn n (fst (prune s))) s.
-(** state after an uninterrupted prune *)
-Definition pruned (s : state) : state := apply_dels (fst (prune s)) s.
+Definition prune (s : state) : list del * status := prune_with pos_append s.
+Definition prune_unchecked (s : state) : list del * status := prune_gen pos_append false true s.
+(* before fix b7554dd: unreachable commits deleted in key order *)
+Definition prune_key_order (s : state) : list del * status := prune_gen pos_append true false s.
+Definition crash (n : nat) (s : state) : state := crash_with pos_append n s.
+Definition pruned (s : state) : state := pruned_with pos_append s.
 
 (* ---- write-order skeleton (for gen/Tie_C12.v) ---- *)
-(** The ordered list of store-mutating calls of prune.Prune (callees pruneTables and the three
-    sweep closures inlined, in source order).  The theorems rely on exactly this order. *)
+(** The calls of prune.Prune that delete from the store or fix the order of deletes, in source
+    order with pruneTables inlined at its call site: every call to objects.Delete* and to
+    childrenFirst (whose result the DeleteCommit loop ranges over).  The theorems rely on exactly
+    this order: table, then its index and profile; blocks; block indices; commits last and
+    children first. *)
 Definition prune_skel : list string :=
-  ["DeleteTable"; "DeleteTableIndex"; "DeleteTableProfile"; "DeleteBlock"; "DeleteBlockIndex"; "DeleteCommit"]%string.
+  ["DeleteTable"; "DeleteTableIndex"; "DeleteTableProfile"; "DeleteBlock"; "DeleteBlockIndex";
+   "childrenFirst"; "DeleteCommit"]%string.
 Definition prune_skel_ok (sk : list string) : bool :=
   if list_eq_dec String.string_dec sk prune_skel then true else false.
 
@@ -259,10 +321,17 @@ Definition status_num (st : status) : N :=
 Definition ids_of (k : kind) (ds : list del) : list N :=
   flat_map (fun d => match d with Del k' id => if kind_eqb k k' then [id] else [] end) ds.
 Definition t_ids (l : list N) : tree := Node (map Leaf l).
+(* ascending, duplicates kept *)
+Fixpoint insd (x : N) (l : list N) : list N :=
+  match l with
+  | [] => [x]
+  | y :: l' => if x <=? y then x :: l else y :: insd x l'
+  end.
+Definition sortd (l : list N) : list N := fold_right insd [] l.
 Definition t_trace (ds : list del) : tree :=
   Node [ Node (map (fun d => match d with Del k _ => Leaf (kind_num k) end) ds);
-         t_ids (ids_of KTable ds); t_ids (ids_of KTblIdx ds); t_ids (ids_of KProf ds);
-         t_ids (ids_of KBlock ds); t_ids (ids_of KBlkIdx ds); t_ids (ids_of KCommit ds) ].
+         t_ids (sortd (ids_of KTable ds)); t_ids (sortd (ids_of KTblIdx ds)); t_ids (sortd (ids_of KProf ds));
+         t_ids (sortd (ids_of KBlock ds)); t_ids (sortd (ids_of KBlkIdx ds)); t_ids (sortd (ids_of KCommit ds)) ].
 Definition t_keysets (s : state) : tree :=
   Node [ t_ids (commit_keys s); t_ids (table_keys s); t_ids (sortu (tblidx s)); t_ids (sortu (prof s));
          t_ids (block_keys s); t_ids (blkidx_keys s) ].
